@@ -99,7 +99,7 @@ Print Assumptions C06_dm_history_independent.
 (** (b1) direct-mapped cache: after any history of insertions and clears, a
     hit for key [k] (operator, edge operands, numeric operands) with value
     arities [ne], [nn] returns a value that was inserted under exactly [k]
-    after the last clear, and no admitted insertion hit that bucket since *)
+    after the last clear, and no accepted insertion hit that bucket since *)
 Theorem C06_dm_get_sound : forall hash nb cap ops k ne nn v,
   dm_get hash (dm_run hash (dm_init nb cap) ops) k ne nn = Some v ->
   exists pre post, ops = pre ++ DAdd k v :: post /\
